@@ -242,8 +242,14 @@ def r3_lift_only_sole_term(ctx):
               "strip_sequence lifts a block that is not the sole term of its chain (length tests found: %s)" % [(t[2], t[3]) for t in tests], b.loc(ext[0]))
 
 
+def r4_emitted_stack_discipline(ctx):
+    """the stack bookkeeping of the emitted code (where the flowing value sits, what each branch leaves behind) — shared with R-C07-7"""
+    from rules import c07
+    c07.r7_emitted_stack_discipline(ctx, "R-C02-4")
+
+
 def run(ctx):
-    ctx.run_rules([r1_placeholders_patched, r2_branch_reset, r3_lift_only_sole_term])
+    ctx.run_rules([r1_placeholders_patched, r2_branch_reset, r3_lift_only_sole_term, r4_emitted_stack_discipline])
     ctx.note("NOT decided: stack offsets (Pick/Rotate), local-slot alignment (nil fill, Reset), branch ordering, instruction semantics — the values programs compute are out of reach of a static analysis of the compiler's source")
     return (
         "Decides ONE structural necessary condition of C02: every placeholder jump planted by the code generator is pointed at its join on every "
